@@ -329,6 +329,8 @@ def readcd_response(est, mcsb, c2, sc, lba, tl):
 
 
 def run_case(case, obs=None):
+    if case[0] == "aba":
+        return run_aba(case[1], case[2])
     fmt, data, exp, dec = build(case)
     out = []
     try:
@@ -355,8 +357,80 @@ def _unjson(x):
 
 
 # ---------------------------------------------------------------------------------------------------------
+MAXTASKS = 1     # every partition in a freshly forked worker (the ABA partitions need a process in which nothing was decoded yet)
+
+ABA_GROUPS = {
+    # group -> C04 partitions whose cases share a decoder class (or, for "all", one case of every format)
+    "inquiry": ["inquiry_std", "vpd86", "vpdb0", "vpdb1", "vpdb2", "vpdb3", "vpd_lists", "vpd83", "vpd89"],
+    "mode": ["mode6", "mode10"], "discinfo": ["discinfo"], "prin": ["prin"], "rtpg": ["rtpg"], "res": ["res"], "readcd": ["readcd"],
+    "lists": ["getlbastatus", "reportluns", "reportpriority", "readcap"],
+    "all": ["inquiry_std", "vpd83", "mode6", "mode10", "readcap", "getlbastatus", "reportluns", "rtpg", "reportpriority", "res", "prin",
+            "discinfo", "readcd"],
+}
+
+
+def freeze(x):
+    if isinstance(x, dict):
+        return tuple(sorted((repr(k), freeze(v)) for k, v in x.items()))
+    if isinstance(x, (list, tuple)):
+        return tuple(freeze(v) for v in x)
+    if isinstance(x, (bytes, bytearray, memoryview)):
+        return bytes(x)
+    return x
+
+
+def aba_representatives(group, per_tag=2):
+    """a few structurally different well-formed cases per format tag of the group"""
+    reps, seen = [], {}
+    for part in ABA_GROUPS[group]:
+        for case in gen([part], "quick"):
+            try:
+                fmt, data, exp, dec = build(case)
+            except Exception:
+                continue
+            tag = (fmt, case[0], case[1] if case[0] in ("vpd_fixed", "discinfo", "prkeys") else None,
+                   (case[1], case[2]) if case[0] in ("mode6", "mode10") else None,
+                   (case[1], case[2]) if case[0] == "readcd" else None, tuple(case[3][0][:3]) if case[0] == "res" and case[3] else None)
+            n = seen.get(tag, 0)
+            # prefer cases with content: skip the all-zero first point of a field enumeration
+            if n < per_tag and any(data[4:]):
+                seen[tag] = n + 1
+                reps.append(case)
+    if group == "all":
+        firsts, tags = [], set()
+        for c in reps:
+            if c[0] not in tags:
+                tags.add(c[0])
+                firsts.append(c)
+        reps = firsts
+    return reps[:40]
+
+
+def run_aba(case_a, case_b):
+    """decode A, decode B, decode A again: the two results for A must be identical in every key (nothing may depend on what was
+    decoded in between), and the first result object must not have changed"""
+    fa, da, ea, deca = build(case_a)
+    fb, db, eb, decb = build(case_b)
+    out = []
+    try:
+        r1 = deca(bytearray(da))
+        f1 = freeze(r1)
+        decb(bytearray(db))
+        r2 = deca(bytearray(da))
+    except Exception as e:   # noqa: BLE001
+        return [("aba/%s/raises" % fa, "decoding %s, %s, %s in sequence raised %s: %s" % (fa, fb, fa, type(e).__name__, e))]
+    if freeze(r1) != f1:
+        out.append(("aba/%s/earlier_result_changed" % fa, "the result of decoding a %s response changed after a %s response was decoded" % (fa, fb)))
+    if freeze(r2) != f1:
+        k1 = set(r1) if isinstance(r1, dict) else set()
+        k2 = set(r2) if isinstance(r2, dict) else set()
+        out.append(("aba/%s/depends_on_history" % fa, "decoding the same %s response before and after a %s response gives different results "
+                    "(keys only before: %r, only after: %r)" % (fa, fb, sorted(map(str, k1 - k2))[:6], sorted(map(str, k2 - k1))[:6])))
+    return out
+
+
 def partitions(tier):
-    return [[n] for n in ("inquiry_std", "vpd86", "vpdb0", "vpdb1", "vpdb2", "vpdb3", "vpd_lists", "vpd83", "vpd89", "mode6", "mode10",
+    return [["aba", g] for g in ABA_GROUPS] + [[n] for n in ("inquiry_std", "vpd86", "vpdb0", "vpdb1", "vpdb2", "vpdb3", "vpd_lists", "vpd83", "vpd89", "mode6", "mode10",
                           "readcap", "getlbastatus", "reportluns", "rtpg", "reportpriority", "res", "prin", "discinfo", "readcd")]
 
 
@@ -515,6 +589,24 @@ def gen(part, tier):
 def run_partition(part, tier, seed):
     acc = Acc(seed)
     prev = None
+    if part[0] == "aba":
+        reps = aba_representatives(part[1])
+        for a in reps:
+            for b in reps:
+                if a is b:
+                    continue
+                case = ["aba", a, b]
+                acc.case(case, nontrivial=True, key=repr(case))
+                try:
+                    v = run_aba(a, b)
+                except Exception:
+                    import traceback
+                    v = [("harness_error/aba", traceback.format_exc()[-600:])]
+                for kk, w in v:
+                    acc.violation(kk, w, case)
+                acc.outcome((repr(case), tuple(x for x, _ in v)))
+        acc.add("aba_pairs", len(reps) * (len(reps) - 1))
+        return acc
     for case in gen(part, tier):
         obs = []
         try:
